@@ -238,9 +238,23 @@ impl World {
             let v: u64 = text[i..j].parse().ok()?;
             Some(format!("{}{}{}", &text[..i], v + add, &text[j..]))
         };
+        // `<field>.older`: the next SMALLER number, as an earlier format version / ABI would have written
+        // it (a comparison relaxed to `<=` accepts exactly these); skipped when the value is already 0
+        let lower = |key: &str| -> Option<String> {
+            let pat = format!("\n{}\"{}\": ", pad, key);
+            let i = text.find(&pat)? + pat.len();
+            let j = i + text[i..].find(|c: char| !c.is_ascii_digit())?;
+            let v: u64 = text[i..j].parse().ok()?;
+            if v == 0 {
+                return None;
+            }
+            Some(format!("{}{}{}", &text[..i], v - 1, &text[j..]))
+        };
         match field {
             "format_version" => bump("format_version", 1),
             "compiler_abi" => bump("compiler_abi", 6),
+            "format_version.older" => lower("format_version"),
+            "compiler_abi.older" => lower("compiler_abi"),
             "package" => {
                 let pat = format!("\n{}\"package\": \"", pad);
                 let i = text.find(&pat)? + pat.len();
@@ -290,7 +304,7 @@ impl World {
             return "ok".to_string();
         }
         let done: Option<String> = match field {
-            "core.format_version" | "core.compiler_abi" | "core.package" => {
+            "core.format_version" | "core.compiler_abi" | "core.package" | "core.format_version.older" | "core.compiler_abi.older" => {
                 Self::mutate_iface_text(&text, &field[5..], 2)
             }
             "core.deps" => {
@@ -393,9 +407,19 @@ impl World {
     }
 }
 
-const IFACE_FIELDS: [&str; 6] = ["format_version", "compiler_abi", "package", "exports", "deps", "interface_hash"];
-const CORE_FIELDS: [&str; 7] =
-    ["core.format_version", "core.compiler_abi", "core.package", "core.deps", "core.core_ir", "core.deps.current", "core.deps.drop"];
+const IFACE_FIELDS: [&str; 8] =
+    ["format_version", "compiler_abi", "package", "exports", "deps", "interface_hash", "format_version.older", "compiler_abi.older"];
+const CORE_FIELDS: [&str; 9] = [
+    "core.format_version",
+    "core.compiler_abi",
+    "core.package",
+    "core.deps",
+    "core.core_ir",
+    "core.deps.current",
+    "core.deps.drop",
+    "core.format_version.older",
+    "core.compiler_abi.older",
+];
 
 fn topo(graph: &'static [(&'static str, &'static [&'static str])]) -> Vec<&'static str> {
     let mut out: Vec<&'static str> = Vec::new();
@@ -537,6 +561,61 @@ pub fn main(args: &util::Args) {
             ops.push(tagged("link", order.iter().map(|p| a(*p)).collect()));
             run_history(&format!("cat:core:{}", k), g, &ops, &dir.join("w"), &mut out);
             k += 1;
+        }
+    }
+    // reader catalogue: in `cat:iface` above the owner of the altered file is re-checked (and the file
+    // rewritten) before any dependent looks at it, so nothing there ever READS an altered interface.
+    // Here every direct dependent checks and builds against the altered file FIRST — for every
+    // single-field alteration, and for an interface written consistently (own hash recomputed) by an
+    // earlier / later format version or ABI — over a chain and over a package with two imports.
+    for gi in [2usize, 3] {
+        let g = GRAPHS[gi];
+        let order = topo(g);
+        let readers = |t: &str| -> Vec<&'static str> {
+            let mut v: Vec<&'static str> = Vec::new();
+            for q in &order {
+                for (p, ds) in g.iter() {
+                    if *p == *q && ds.iter().any(|d| *d == t) {
+                        v.push(*q);
+                    }
+                }
+            }
+            v
+        };
+        let tail = |t: &str| -> Vec<S> {
+            let mut ops: Vec<S> = Vec::new();
+            for d in readers(t) {
+                ops.push(tagged("check", vec![a(d)]));
+                ops.push(tagged("build", vec![a(d)]));
+            }
+            ops.push(tagged("link", order.iter().map(|p| a(*p)).collect()));
+            ops
+        };
+        for target in order.iter().filter(|t| !readers(t).is_empty()) {
+            for f in IFACE_FIELDS.iter() {
+                let mut ops: Vec<S> = order.iter().map(|p| tagged("build", vec![a(*p)])).collect();
+                ops.push(tagged("corrupt-iface", vec![a(*target), a(*f)]));
+                ops.extend(tail(target));
+                run_history(&format!("cat:iface-read:{}:{}:{}", gi, target, f), g, &ops, &dir.join("w"), &mut out);
+            }
+        }
+        let (fv, abi) = (compiler::artifact::FORMAT_VERSION as usize, compiler::artifact::COMPILER_ABI as usize);
+        let mut others: Vec<(usize, usize)> = vec![(fv + 1, abi), (fv, abi + 1), (fv + 1, abi + 1), (fv + 41, abi), (fv, abi + 41)];
+        if fv > 0 {
+            others.push((fv - 1, abi));
+        }
+        if abi > 0 {
+            others.push((fv, abi - 1));
+        }
+        // the model's foreign interface has no dependencies: leaves only
+        let leaves: Vec<&'static str> = g.iter().filter(|(_, ds)| ds.is_empty()).map(|(t, _)| *t).collect();
+        for target in leaves.into_iter().filter(|t| !readers(t).is_empty()) {
+            for (v, b) in &others {
+                let mut ops: Vec<S> = order.iter().map(|p| tagged("build", vec![a(*p)])).collect();
+                ops.push(tagged("foreign-iface", vec![a(target), n(*v), n(*b)]));
+                ops.extend(tail(target));
+                run_history(&format!("cat:foreign:{}:{}:{}:{}", gi, target, v, b), g, &ops, &dir.join("w"), &mut out);
+            }
         }
     }
     // staleness catalogue: after an interface edit of P and a rebuild of P, rebuild EVERY subset of the
